@@ -15,6 +15,8 @@
 //!                                           client tcp: ClientContext::<N>::try_from, client udp: udp::Client::<N>::new_static,
 //!                                           server tcp: ServerContext::<N>::init (N by the kind, as the callers' `match cipher` does)
 //!                                           -> N=<n> OK | N=<n> ERR | N=- NOKEY
+//! cfgvmess  \t net \t Variant                 vmess client codec constructor of one flow (tcp: tcp::new_codec, udp: udp::new_codec)
+//!                                           with that configured kind -> OK | ERR (cipher refused)
 use std::io::Write;
 use std::sync::Arc;
 
@@ -221,6 +223,20 @@ pub fn exec(f: &[&str]) -> Vec<String> {
                 }
             }
         }
+        "cfgvmess" => {
+            let kind = kind_of(f[2]);
+            let uuid = "b831381d-6324-4d53-ad4f-8cda48b30811";
+            let addr = crate::canon::parse_addr("4:7f000001:80");
+            let ok = if f[1] == "tcp" {
+                ch::vmess::new_tcp_codec(&addr, (kind, uuid.to_string())).is_ok()
+            } else {
+                let display = kind.to_string();
+                let cipher = if kind == CipherKind::Unknown { None } else { Some(display.as_str()) };
+                let c: ServerConfig<ch::SslConfig> = serde_json::from_str(&object_json("client", cipher, "vmess", None, false, false, false, uuid)).unwrap();
+                ch::vmess::new_udp_codec(&addr, &c).is_ok()
+            };
+            if ok { "OK".to_string() } else { "ERR".to_string() }
+        }
         _ => "UNKNOWN".into(),
     });
     vec![r.unwrap_or_else(|_| "PANIC".into())]
@@ -357,6 +373,13 @@ pub fn generate(w: &mut dyn Write, seed: u64, thorough: bool) {
     // 2. kinds
     for (v, _) in KINDS.iter() {
         emit(vec!["cfgkind".into(), v.to_string()]);
+    }
+
+    // 2b. vmess client: which configured kinds a flow's codec constructor accepts
+    for net in ["tcp", "udp"] {
+        for (v, _) in KINDS.iter() {
+            emit(vec!["cfgvmess".into(), net.into(), v.to_string()]);
+        }
     }
 
     // 3. whole objects with / without the optional fields and sections
